@@ -368,5 +368,12 @@ TEXT = {'C11': {'technique': 'Lean 4 proof by mutual structural induction over t
                   'name, groups scope over all annotations, definitions and the body, `_` never binds and is a fresh hole, omitted annotations are holes '
                   'shifted out of their group); conversely if toDB succeeds the resolver reports nothing; the map is restored; hole ids only grow. Searched on '
                   "the implementation: the indices in parse()'s output for every generated program against an independent stack resolver, incl. keyword-prefix "
-                  'and non-ASCII names and sibling scopes re-using names; unbound/shadowing perturbations must be rejected.',
+                  'and non-ASCII names and sibling scopes re-using names; unbound/shadowing perturbations must be rejected. **Added: resolution loses no '
+                  'binding information — reading every index back through the binder stack gives the source program back up to layout (C08_roundtrip, '
+                  "C08_toDB_injective: two programs with the same resolved tree are the same program up to layout, nested lets modulo gram's flattening, `x => "
+                  '..` and `(x : _) => ..` identified — the pure-layout form is refuted by that pair, which the binary also prints alike); the scope clauses '
+                  'stated directly: a parameter scopes over body / codomain only, not over its own annotation (C08_param_scope), all names of a group are in '
+                  'scope in every annotation, definition and the body, with the index formula `k + (n - 1 - i)` (C08_group_scope), `_` never binds and denotes '
+                  'a fresh hole per occurrence (C08_placeholder), and resolution fails exactly on an occurrence of an unbound name or a binder re-binding a '
+                  'name bound outside or earlier in its group (C08_rejects: full iff with an inductive `IllScoped`, C08_rebind).**',
          'note': 'Trusted: Lean kernel, standard axioms, the specification toDB, harness/driver.'}}
